@@ -361,14 +361,11 @@ Section Codec.
            if is_multi f then
              match x with
              | VNone => f_min f <=? 0
-             | VList xs => forallb (fun y => match y with VNone => f_nillable f | _ => rec (f_ty f) y end) xs
+             | VList xs => forallb (fun y => match y with VNone => f_nillable f | _ => true end && rec (f_ty f) y) xs
              | _ => false
              end
            else
-             match x with
-             | VNone => (f_min f <=? 0) || f_nillable f
-             | _ => rec (f_ty f) x
-             end
+             match x with VNone => (f_min f <=? 0) || f_nillable f | _ => true end && rec (f_ty f) x
        end.
 
   Fixpoint xconf (fuel : nat) (t : ty) (v : val) : bool :=
